@@ -83,6 +83,12 @@ when `c` is not above the current cutoff (only the generic sampler has this call
 sampler and the tempering trait's `set_op_cutoff` only offer the raw `set_cutoff`). -/
 def increaseCutoffTo (c : Nat) (s : CSampler) : CSampler := setCutoff (max s.cutoff c) s
 
+/-- `Clone::clone` of either sampler, and snapshot → restore (serde round trip of the sampler with its
+rng, or `SerializeQmcGraph` + `into_qmc(rng)`): the copy has the same cutoff field and the same
+container.  The cutoff is a running maximum, not a function of the current operator count, so it
+has to be copied / stored as it is. -/
+def copy (s : CSampler) : CSampler := s
+
 /-- a run: one decision function per time step -/
 def run (ds : List (Nat → Bool → Bool)) (s : CSampler) : CSampler := ds.foldl (fun s d => timestep d s) s
 
@@ -121,6 +127,7 @@ inductive PairAction where
   | raiseA (c : Nat)            -- `increase_cutoff_to(c)` for ANY `c` (below, equal, above); `set_cutoff(c)` with `c ≥ cutoff`
   | convertA (nvars : Nat)      -- `a := a.into_qmc()`
   | freshB (c : Nat)            -- partner replaced by a freshly built Ising sampler with cutoff `c`
+  | copyA                       -- `a := a.clone()` / `a := restore(snapshot(a))`
 
 def applyPair (p : CSampler × CSampler) : PairAction → CSampler × CSampler
   | .stepA d => (CSampler.timestep d p.1, p.2)
@@ -129,6 +136,7 @@ def applyPair (p : CSampler × CSampler) : PairAction → CSampler × CSampler
   | .raiseA c => (CSampler.increaseCutoffTo c p.1, p.2)
   | .convertA nv => (convertSampler nv p.1, p.2)
   | .freshB c => (p.1, CSampler.newIsing c)
+  | .copyA => (CSampler.copy p.1, p.2)
 
 def runPair (acts : List PairAction) (p : CSampler × CSampler) : CSampler × CSampler :=
   acts.foldl applyPair p
